@@ -7,7 +7,7 @@
    segmentations, EOF, error, EAGAIN at the end).  Non-vacuity examples: Httpd/HttpdExamples.v. *)
 From Coq Require Import ZArith List Bool.
 From LV Require Import Gen.Consts_C20 Httpd.HttpdDefs Httpd.HttpdProofs Httpd.HttpdGate Httpd.HttpdSafe
-  Httpd.HttpdBody Httpd.HttpdSubst Httpd.HttpdExamples.
+  Httpd.HttpdBody Httpd.HttpdSubst Httpd.HttpdSend Httpd.HttpdExamples.
 Import ListNotations.
 Local Open Scope Z_scope.
 
@@ -153,3 +153,24 @@ Theorem C20_substitution_other_dollar : forall cfg params pre r,
   | None => None
   end.
 Proof. exact substitution_other_dollar. Qed.
+
+(* C20_send_bounded: the send side.  rfbWriteExact's loop (sockets.c), for every schedule of
+   would-block / ready / time-out / error results, every length and every rfbMaxClientWait:
+   it terminates, and the virtual time spent waiting is at most one budget - time-out plus one select
+   slice - per time the peer made the socket writable again, plus one.  A client that requests a
+   large file and stops reading holds rfbHttpCheckFds for at most rfbMaxClientWait + one slice
+   (C20_send_gives_up), the slice being exactly the select() time-out (regenerated from sockets.c). *)
+Theorem C20_send_bounded : forall sched timeout slice len waited total,
+  0 < slice -> 0 <= waited -> (waited < timeout \/ waited = 0) ->
+  exists r t, wx_loop sched timeout slice len waited total = Some (r, t) /\
+              total <= t /\
+              t - total <= Z.of_nat (count_ready sched) * budget timeout slice + budget timeout slice - waited.
+Proof. exact send_bounded. Qed.
+
+Theorem C20_send_gives_up : forall timeout slice len,
+  0 < slice -> 0 < len ->
+  exists t, wx_loop [] timeout slice len 0 0 = Some (WGiveUp, t) /\ Z.max timeout 1 <= t + 0 /\ t <= Z.max timeout 0 + slice.
+Proof. exact send_gives_up. Qed.
+
+Theorem C20_send_slice_is_select_timeout : C20_WX_SLICE_MS = C20_WX_TV_SEC * 1000 /\ 0 < C20_WX_SLICE_MS.
+Proof. exact slice_is_select_timeout. Qed.
